@@ -323,6 +323,136 @@ theorem getitemB_eq_spec_except_known (inter : Bool) (bs : List Nat) (n t : Nat)
     rw [hpad] at hspec
     exact getitemDispatch_batchonly_correct inter bs n t idx res hshort hb hspec
 
+/-! ## index tensors on batch dimensions, where the covariance selection is a block -/
+
+/-- int × slice, slice × int select `cov[batch + (s, s)]`, full × full selects `cov[batch]` -/
+theorem getitemRCB_block (inter : Bool) (N nr nc : Int) (B : List Idx) (r c : Idx) (k : OutKind) (sel : CovSel)
+    (h : getitemRCB inter N nr nc B r c = some (k, sel))
+    (hs : ((r.isInt && c.isSlice) || (r.isSlice && c.isInt) || (r.isFull && c.isFull)) = true) :
+    sel.ev = .full ∨ ∃ s, sel.ev = .slice2 s := by
+  cases r <;> cases c <;>
+    simp [getitemRCB, Idx.isInt, Idx.isSlice, Idx.isFull, branchB_intInt, branchB_intSlice, branchB_sliceInt,
+      branchB_fullSlices, branchB_mesh, branchB_pairs, Option.bind_eq_some_iff] at h hs <;>
+    grind
+
+/-- **full-length index with ANY batch components (ints, slices, index tensors / lists), event part int × slice,
+slice × int or full × full** — the selection `cov[batch_idx + (s, s)]` / `cov[batch_idx]` follows torch's gather
+semantics in the batch dimensions exactly as `mean[idx]` does, for every batch rank. -/
+theorem getitemDispatch_block_correct (inter : Bool) (bs : List Nat) (n t : Nat) (bidx : List Idx) (r c : Idx)
+    (res : OutKind × CovRes) (hlen : bidx.length = bs.length)
+    (hs : ((r.isInt && c.isSlice) || (r.isSlice && c.isInt) || (r.isFull && c.isFull)) = true)
+    (h : specOfFull inter bs n t (bidx ++ [r, c]) = some res) :
+    evalResult bs ((n : Int) * t) (getitemDispatch inter ((bs.length : Int) + 2) n t (bidx ++ [r, c])) = some res := by
+  rw [specOfFull_split inter bs n t bidx r c hlen] at h
+  simp only [Option.bind_eq_some_iff, Option.map_eq_some_iff] at h
+  obtain ⟨A, hres, ri, hri, ci, hci, g, hg, cov, hcov, rfl⟩ := h
+  have hr := toRItem_resolve hri
+  have hc := toRItem_resolve hci
+  have kr := toRItem_kind hri
+  have kc := toRItem_kind hci
+  have hnl : r.isList = false ∧ c.isList = false := by
+    cases r <;> cases c <;> simp_all [Idx.isInt, Idx.isSlice, Idx.isFull, Idx.isList]
+  have hrb : ri.basic = true := by rw [kr.2.1, hnl.1]; rfl
+  have hcb : ci.basic = true := by rw [kc.2.1, hnl.2]; rfl
+  have hT : allBasic [ri, ci] = true := by simp [allBasic, hrb, hcb]
+  obtain ⟨o, ho⟩ : ∃ o, outerOf A = some o := by
+    rw [gather, gatherFrom_basicTail _ A [ri, ci] hT] at hg
+    cases hh : outerOf A with
+    | none => simp [hh] at hg
+    | some o => exact ⟨o, rfl⟩
+  rw [getitemDispatch_full inter bs.length n t bidx r c hlen]
+  have hblock : ∃ pos, specPositions inter n t (r.isList && c.isList) ri.positions ci.positions = some pos ∧
+      cov = ⟨o.shape, o.data.map fun p => gridBlock p.reverse pos⟩ := by
+    rw [hnl.1, hnl.2]
+    cases r with
+    | int i =>
+      obtain ⟨pi, rfl⟩ := kr.2.2.1 rfl
+      cases c with
+      | int j => simp [Idx.isInt, Idx.isSlice, Idx.isFull] at hs
+      | slice s =>
+        obtain ⟨C, rfl⟩ := kc.2.2.2.1 rfl
+        exact spec_outer_one_pick inter n t A o ho _ _ rfl rfl (Or.inl ⟨rfl, rfl⟩) rfl g cov hg
+          (by simpa [specKind, Idx.isSlice, Idx.isInt] using hcov)
+      | list l => simp [Idx.isList] at hnl
+    | slice s =>
+      obtain ⟨R, rfl⟩ := kr.2.2.2.1 rfl
+      cases c with
+      | int j =>
+        obtain ⟨pa, rfl⟩ := kc.2.2.1 rfl
+        exact spec_outer_one_pick inter n t A o ho _ _ rfl rfl (Or.inr ⟨rfl, rfl⟩) rfl g cov hg
+          (by simpa [specKind, Idx.isSlice, Idx.isInt] using hcov)
+      | slice s' =>
+        obtain ⟨C, rfl⟩ := kc.2.2.2.1 rfl
+        exact spec_outer_grid inter n t A o ho R C g cov hg
+          (by simpa [specKind, Idx.isSlice, Idx.isInt] using hcov)
+      | list l => simp [Idx.isList] at hnl
+    | list l => simp [Idx.isList] at hnl
+  obtain ⟨pos, hp, rfl⟩ := hblock
+  have hget := getitem_selects_pairs inter n t r c hr hc hp
+  obtain ⟨sel, hsel, hsb, hpos, -⟩ := getitemRCB_of_getitem inter n t bidx r c _ _ hget
+  have hev := getitemRCB_block inter _ _ _ bidx _ _ _ sel hsel (by
+    cases inter <;> simp only [layout_row_idx, layout_col_idx, if_true, Bool.false_eq_true, if_false]
+    · rw [← hs]; cases r.isInt <;> cases c.isInt <;> cases r.isSlice <;> cases c.isSlice <;> cases r.isFull <;> cases c.isFull <;> rfl
+    · exact hs)
+  rw [hsel]
+  obtain ⟨sb, ev⟩ := sel
+  simp only at hsb hpos hev
+  subst hsb
+  simp only [evalResult, Option.bind_some, eval_outer bs _ sb ev A pos hlen hres hev hpos, ho, Option.map_some]
+
+/-- **batch-only index with ANY components (index tensors / lists included)**: `cov[idx]` is the covariance of `mean[idx]` -/
+theorem getitemDispatch_batchonly_correct_any (inter : Bool) (bs : List Nat) (n t : Nat) (idx : List Idx)
+    (res : OutKind × CovRes) (hlen : idx.length ≤ bs.length)
+    (h : specOfFull inter bs n t (idx ++ List.replicate (bs.length + 2 - idx.length) (.slice PySlice.full)) = some res) :
+    evalResult bs ((n : Int) * t) (getitemDispatch inter ((bs.length : Int) + 2) n t idx) = some res := by
+  have e : bs.length + 2 - idx.length = (bs.length - idx.length) + 2 := by omega
+  rw [e, replicate_add_two, ← List.append_assoc] at h
+  have hl : (idx ++ List.replicate (bs.length - idx.length) (Idx.slice PySlice.full)).length = bs.length := by
+    simp; omega
+  have := getitemDispatch_block_correct inter bs n t _ _ _ res hl (by simp [Idx.isFull, Idx.isInt, Idx.isSlice]) h
+  rw [getitemDispatch_full inter bs.length n t _ _ _ hl] at this
+  have hlay : layout_row_idx inter n t (.slice PySlice.full) (.slice PySlice.full) = .slice PySlice.full ∧
+      layout_col_idx inter n t (.slice PySlice.full) (.slice PySlice.full) = .slice PySlice.full := by
+    cases inter <;> simp [layout_row_idx, layout_col_idx]
+  rw [hlay.1, hlay.2, getitemRCB_fullSlices] at this
+  unfold getitemDispatch
+  have h1 : ((idx.length : Int) ≤ (bs.length : Int) + 2 - 2) := by omega
+  simp only [h1, if_true]
+  simp only [evalResult, Option.bind_some] at this ⊢
+  rw [eval_pad bs _ idx .full hlen]
+  exact this
+
+/-- **getitemB_eq_spec_block_event** — index tensors / lists on BATCH dimensions where they are handled correctly: for
+every batch shape (any rank), all `n`, `t`, both layouts and every index expression valid for the mean — batch
+components of ANY kind (ints, slices, index tensors, several of them, adjacent or separated by slices), `Ellipsis`
+anywhere — whose event part is int × slice, slice × int, or two full slices (in particular every index that addresses
+batch dimensions only), the regenerated `__getitem__` returns the covariance of `mean[idx]`.  Together with
+`getitemB_eq_spec_except_known` this confines the known finding to: index tensor on a batch dimension AND
+(int × int, a strided / partial slice × slice, or an index tensor on an event dimension). -/
+theorem getitemB_eq_spec_block_event (inter : Bool) (bs : List Nat) (n t : Nat) (e : IdxExpr) (res : OutKind × CovRes)
+    (hblock : eventBlock bs.length e = true)
+    (h : specGetitemB inter bs n t e = some res) :
+    evalResult bs ((n : Int) * t) (getitemFull inter ((bs.length : Int) + 2) n t e) = some res := by
+  unfold specGetitemB at h
+  simp only [Option.bind_eq_some_iff] at h
+  obtain ⟨full, hfull, hspec⟩ := h
+  have hlenf := specExpand_length _ _ _ hfull
+  simp only [eventBlock, hfull] at hblock
+  obtain ⟨idx, hidx, hcase⟩ := getitemIdx_spec bs.length e full hfull
+  unfold getitemFull
+  rw [hidx, Option.bind_some]
+  rcases hcase with rfl | ⟨hshort, hpad⟩
+  · obtain ⟨r, c, hrc⟩ := split_last_two bs.length idx hlenf
+    have hd : idx.drop bs.length = [r, c] := by
+      have := congrArg (List.drop bs.length) hrc
+      rw [List.drop_append_of_le_length (by simp; omega)] at this
+      simpa using this
+    rw [hd] at hblock
+    rw [hrc] at hspec ⊢
+    exact getitemDispatch_block_correct inter bs n t _ r c res (by simp; omega) hblock hspec
+  · rw [hpad] at hspec
+    exact getitemDispatch_batchonly_correct_any inter bs n t idx res hshort hspec
+
 /-! ## the recorded known finding, as theorems about the generated code -/
 
 /-- **getitemB_batch_advanced_known** — index tensors on a BATCH dimension (known finding `getitem:*:batch-advanced:*`):
@@ -495,5 +625,15 @@ example : permutedIdx [0, 2, 3, 1] (insertAt 1 7 [5, 6] ++ [9]) = [5, 6] ++ [9, 
 example : wrap 3 (-2) = some 1 ∧ fromBatchMvnPlan 3 4 3 ≠ none ∧ fromBatchMvnPlan 3 4 4 = none := by decide +kernel
 example : fromRepeatedShape 5 [2, 3] = [5, 2, 3] ∧ fromRepeatedTaskDim = 0 ∧ fromIndependentPlan = (-1, 0, 0, 0) := by decide +kernel
 example : diRowTask 1 2 = 2 ∧ diColTask 1 2 = 1 := by decide +kernel
+-- index tensors on two batch dimensions separated by a slice (torch moves their common dimension to the front), event part
+-- slice × int: inside `getitemB_eq_spec_block_event`
+example :
+    let e : IdxExpr := .tuple [.comp (.list [1, 0, 1]), BIdx.full, .comp (.list [0, 2, 1]), .comp (.slice ⟨some 1, none, none⟩), .comp (.int 0)]
+    eventBlock 3 e = true ∧ batchBasic 3 e = false ∧ (specGetitemB false [2, 2, 3] 3 2 e).isSome = true ∧
+    evalResult [2, 2, 3] 6 (getitemFull false 5 3 2 e) = specGetitemB false [2, 2, 3] 3 2 e := by
+  decide +kernel
+-- a batch-only index with an index tensor
+example : eventBlock 1 (.bare (.comp (.list [1, 1, 0]))) = true ∧
+    (specGetitemB true [2] 1 2 (.bare (.comp (.list [1, 1, 0])))).map (fun r => r.2.batch) = some [3] := by decide +kernel
 
 end C11
